@@ -6,12 +6,19 @@ from ..gen import Opt, schema_lines, LIST, MULTI, TITLE, NO_TITLE_DUPES, NOCASE,
 THEOREMS = ["C01_eq_replaces", "C01_pluseq_appends", "C01_scalar_last_wins", "C01_bad_value_rejected", "C01_multi_accumulates",
             "C01_new_title_appends", "C01_repeated_title_replaces", "C01_unique_title_rejected", "C01_single_section_merges",
             "C01_default_materialised", "C01_parse_eq", "C01_parse_pluseq", "C01_parse_pluseq_nonlist",
-            "C01_frame_local", "C01_compositional", "C01_compositional_top"]
-PARTIAL = ("Proved: each clause of the statement as a law of the model's value store (what '=' / '+=' / repeated scalar / multi section / "
-           "repeated title / unique titles / re-opened single section / defaults do), and what the token machine hands to the store on '=' and '+='. "
-           "Not proved: the refinement of the whole 15-state token machine to an item-level denotation for all item lists and nesting depths "
-           "(C01_sound / C01_exact of DESIGN.md); acceptance/rejection of arbitrary token orders is therefore covered by the tie only "
-           "(random + hand-built schemas x mutated texts, full tree dumps compared).")
+            "C01_frame_local", "C01_compositional", "C01_compositional_top", "C01_refinement", "C01_items_then_eof"]
+PARTIAL = ("Proved: (1) each clause of the statement as a law of the model's value store (what '=' / '+=' / repeated scalar / multi section / "
+           "repeated title / unique titles / re-opened single section / defaults do) and what the token machine hands to the store on '=' and '+='; "
+           "(2) the nesting structure, unconditionally: for EVERY list of items (assignments, braced lists, calls, comments, plain/titled sections "
+           "nested to any depth; every schema, flag set, callback oracle, line layout) started at an item boundary, the 15-state explicit-stack "
+           "machine run over the flattened tokens equals the compositional evaluation evalItems - a section body is evaluated by a recursive call on "
+           "a machine holding only the new section's frame and re-attached at the closing brace - on top of any enclosing stack, which it neither "
+           "reads nor changes (C01_frame_local, C01_refinement); the evaluation is total (the grammar's braces are the machine's brace accounting, "
+           "also through skipped undeclared sections) and always ends at an item boundary or rejected (C01_refinement, C01_items_then_eof). "
+           "Not proved: exactness in the other direction (every ACCEPTED token sequence is the flattening of some item list - texts with a trailing "
+           "comma in a list, or comments between the tokens of one item, are accepted but are not in the Item grammar), and the linear part of "
+           "evalItems is still phrased through the machine's own per-token step, characterised by the clause theorems of (1) rather than by one "
+           "closed formula per item. Both are covered by the tie (random + hand-built schemas x mutated texts, full tree dumps compared).")
 VARIANT = "asan"
 RULE = ("random and hand-built schemas (option kinds x flags x nesting) x context flags x grammar-derived texts, then token "
         "deletion/duplication/swap/replacement, 1-3 texts parsed into the same context; compared: return code and full tree "
